@@ -223,8 +223,14 @@ with bdispose_children (f : nat) (id : nat) (s : state) {struct f} : res unit :=
           do _, s2 <- brun_cleanups f' (n_cleanups nd) (set_tracker None s1);
           let s3 := set_tracker prevt s2 in
           do _, s4 <- bdispose_list f' (n_children nd) s3;
-          if alive id s4 then Ok tt (upd id (nd_context []) s4)
-          else if true then Ok tt s4 else Err (Runtime 11) s4
+          match nodes s4 !! id with
+          | Some nd' =>
+              (* fix of F20: cleanups may have created nodes / registered cleanups in this very scope: go round again *)
+              if true && negb (match n_cleanups nd', n_children nd' with [], [] => true | _, _ => false end)
+              then bdispose_children f' id s4
+              else Ok tt (upd id (nd_context []) s4)
+          | None => if true then Ok tt s4 else Err (Runtime 11) s4
+          end
       end
   end
 
@@ -453,8 +459,14 @@ Lemma bdispose_children_S (f' : nat) (id : nat) (s : state) :
           do _, s2 <- brun_cleanups f' (n_cleanups nd) (set_tracker None s1);
           let s3 := set_tracker prevt s2 in
           do _, s4 <- bdispose_list f' (n_children nd) s3;
-          if alive id s4 then Ok tt (upd id (nd_context []) s4)
-          else if true then Ok tt s4 else Err (Runtime 11) s4
+          match nodes s4 !! id with
+          | Some nd' =>
+              (* fix of F20: cleanups may have created nodes / registered cleanups in this very scope: go round again *)
+              if true && negb (match n_cleanups nd', n_children nd' with [], [] => true | _, _ => false end)
+              then bdispose_children f' id s4
+              else Ok tt (upd id (nd_context []) s4)
+          | None => if true then Ok tt s4 else Err (Runtime 11) s4
+          end
       end.
 Proof. reflexivity. Qed.
 
@@ -587,12 +599,9 @@ Qed.
 Lemma provide_batched fx ty v s : batching s = true -> batched (provide fx ty v s).
 Proof. intros Hb. destruct (provide fx ty v s) as [u s'|] eqn:E; [|exact I]. cbn. rewrite (provide_batching _ _ _ _ _ _ E). exact Hb. Qed.
 
-Lemma use_ctx_from_same g : forall ty id first s r s', use_ctx_from g ty id first s = Ok r s' -> s' = s.
+Lemma use_ctx_from_same fx g : forall ty id first s r s', use_ctx_from fx g ty id first s = Ok r s' -> s' = s.
 Proof.
-  induction g as [|g IH]; intros ty id first s r s' H; cbn [use_ctx_from] in H; [discriminate|].
-  destruct (nodes s !! id) as [nd|]; [|discriminate].
-  destruct (ctx_find ty (n_context nd)); [inversion H; reflexivity|].
-  destruct (n_parent nd); [eapply IH; eassumption|inversion H; reflexivity].
+  intros ty id first s r s' H. pose proof (use_ctx_from_st fx g ty id first s) as E. rewrite H in E. exact E.
 Qed.
 
 Lemma try_use_context_same fx ty s r s' : try_use_context fx ty s = Ok r s' -> s' = s.
@@ -711,7 +720,8 @@ Proof.
   - (* dispose_children *)
     intros id s Hb. rewrite dispose_children_S, bdispose_children_S. destruct (nodes s !! id) as [nd|]; [|aok].
     cbv zeta. ab; [apply Hrc; exact Hb|]. ab; [apply Hdl; cbn; assumption|].
-    match goal with |- context [if ?b then _ else _] => destruct b end; aok.
+    match goal with |- context [nodes ?s4 !! id] => destruct (nodes s4 !! id) as [nd'|] end; [|aok].
+    match goal with |- context [if ?b then _ else _] => destruct b end; [apply Hdc; assumption|aok].
   - (* run_cleanups *)
     intros cs s Hb. rewrite run_cleanups_S, brun_cleanups_S. destruct cs as [|c r]; [aok|].
     ab; [apply Hexec; exact Hb|]. apply Hrc; assumption.
